@@ -9,6 +9,7 @@ import core
 import fracexec
 import rsmcoef
 import t3_util as T3
+import v4_util as V4
 import u4_util as U4
 from fracexec import frac_str, frac_list
 
@@ -695,7 +696,10 @@ def u4_install(sink, ctx):
             i = [not (lo - tol <= v <= hi + tol) for v in x].index(True)
             msg = 'level %d = %r outside [%r, %r] of the profile the step started from' % (i, x[i], lo, hi)
         else:
-            nz, dt, co, da, daz, cd, dz, res = last['eq']
+            nz, _dt, _co, da, daz, cd, dz, res = last['eq']
+            # the statement is about the step the model takes: the profile the step started from and the time step of
+            # the simulation (not whatever profile / dt the last kernel call happened to be given)
+            co, dt = start, simTime.dt
             if res != x:
                 msg = 'the profile kept by the object is not the solution returned by diffusion_equation (first ' \
                       'difference at level %d)' % [a != b for a, b in zip(res, x)].index(True)
@@ -709,7 +713,8 @@ def u4_install(sink, ctx):
                           '(rural obstacle height %r: displacement height %r, lowest level %r m)' % (
                               lhs, rhs, ctx.get('h_obs'), getattr(self, 'disp', None), self.z[0])
                 elif 'sys' in last:
-                    msg = float_residual_msg(last['sys'][0], last['sys'][1], x, 'row')
+                    msg = float_residual_msg(last['sys'][0], last['sys'][1], x, 'row') or \
+                        V4.whole_step_msg(n, dt, start, x, da, daz, cd, dz, rel=1e-9)
         sink('vdm:' + ('unstable' if rural.sens > 1e-2 else 'stable'), msg)
         return out
     RSMDef.vdm = vdm
@@ -745,7 +750,10 @@ def circumstance_ties(chk, quick):
         scen += [U4.make_spec('toronto 10 Jan, sensor at 30 m, obstacles 15 m, wind mast 50 m', epw=epw_t, param=par_t,
                               month=1, day=10, nday=2, dtsim=300, zone='5A', h_temp=30.0, h_obs=15.0, h_wind=50.0),
                  U4.make_spec('singapore 30 Apr, h_temp 2.5, h_obs 3.9, dt 150', month=4, day=30, nday=2, dtsim=150,
-                              h_temp=2.5, h_obs=3.9)]
+                              h_temp=2.5, h_obs=3.9),
+                 U4.make_spec('singapore 1 Oct, dt 225 (a legal time step that no shipped file uses)', month=10, day=1,
+                              nday=1, dtsim=225, h_temp=6.0),
+                 U4.make_spec('singapore 10 Feb, dt 80', month=2, day=10, nday=1, dtsim=80)]
     counts, nbad, _ = U4.live_battery(
         chk, 'C16', U4_HOOKS, scen, U4.others_default(work), 'C16 statement on the vdm steps of live runs',
         full=1 if quick else len(scen), required=('vdm:', 'generate:grid'))
@@ -930,6 +938,9 @@ def run(chk):
                      'code returns [0] and with nz = 0 it raises IndexError')
 
     circumstance_ties(chk, quick)
+
+    # ---- the real vdm in doubles at every legal simulation time step (whole-step oracle)
+    rsmcoef.run_all_timesteps(chk)
 
     # ---- second part: where cd, da, daz come from (diffusion_coefficient, vdm)
     rsmcoef.run_coef(chk)
